@@ -137,8 +137,17 @@ structure Fixes where
   importLib : Bool      -- imported code sees the importer's library
   importReject : Bool   -- import syntax is rejected in sandboxed evaluation
   valueEmpty : Bool     -- //eval.value evaluates with an empty library and scope
+  dynBarrier : Bool     -- NOT in the tree: the sandbox does not see the caller's dynamic variables `@{x}`
 
-def Fixes.all : Fixes := ⟨true, true, true, true⟩
+/-- every repair, including the one not made -/
+def Fixes.all : Fixes := ⟨true, true, true, true, true⟩
+
+/-- the tree as repaired: the four committed repairs; dynamic variables still cross the sandbox boundary -/
+def Fixes.tree : Fixes := ⟨true, true, true, true, false⟩
+
+/-- the four committed repairs are in force -/
+def Fixes.core (fx : Fixes) : Prop :=
+  fx.macroLib = true ∧ fx.importLib = true ∧ fx.importReject = true ∧ fx.valueEmpty = true
 
 /-- the libraries and the source file system the interpreter runs against -/
 structure World where
@@ -157,6 +166,13 @@ structure Ctx where
   sandboxed : Bool      -- set by contextualEval: import syntax is rejected
   compiling : Bool      -- arraictx.IsCompiling
   lib : Option Val      -- the `//` recorded by EvalWithScope (seen by macros)
+  dyn : Val := .nil     -- dynamic variables `@{x}`: context values keyed by rel.DynIdent, bound by DynIdentPattern
+
+/-- rel.isDynIdent: identifiers `@{…}` are dynamic variables, bound in and read from the Go context -/
+def isDyn (x : String) : Bool :=
+  match x.toList with
+  | '@' :: '{' :: _ => true
+  | _ => false
 
 structure EvalConfig where
   stdlib : Option Val
